@@ -87,4 +87,5 @@ def rules(t):
     if not restarts: r.bad("failover-restart-missing", None, "failover does not restart the connection request")
     out.append(r)
     out.append(shared.slots_match_limit(t, "C18.e"))
+    out.append(shared.capacity_rule(t, "C18.f"))
     return out
